@@ -598,6 +598,10 @@ impl Engine {
                 if got != len {
                     return Err(Fail::new("mismatch|h_len|valid|model_len|other", format!("len() of {} is {}, expected {}", hp, got, len)));
                 }
+                let empty = guard("h_is_empty", || h.stream.is_empty())?;
+                if empty != (len == 0) {
+                    return Err(Fail::new("mismatch|h_is_empty|valid|model_len|other", format!("is_empty() of {} is {}, but the stream has {} bytes", hp, empty, len)));
+                }
             }
             Op::HPos { .. } => {
                 let got = guard("h_pos", || h.stream.stream_position())?;
